@@ -407,7 +407,7 @@ def r_global_guards(c):
     what that rank has locally: the comparison `schedule vs. local nodes` is
     the diagnostic, a local omission must not be able to switch it off"""
     m = c.model
-    f = m.func(D + "partition.find_distributed_partition")
+    f = m.inlined(m.func(D + "partition.find_distributed_partition"))
     comm = f.args.args[0].arg
     glob = set()
     for a in ast.walk(f):
